@@ -64,9 +64,10 @@ type Gen struct {
 	// Groups > 0: connections are partitioned (conn id modulo Groups) and a
 	// connection only ever names sessions created by its own group
 	// (noninterference runs).
-	Groups   int
-	created  map[string][2]int
-	nCreated map[int]int
+	Groups     int
+	NoDeadSIDs bool
+	created    map[string][2]int
+	nCreated   map[int]int
 }
 
 // NoteCreated records that a connection of group g created session sid.
@@ -369,7 +370,9 @@ func (g *Gen) pickSID(c *model.Conn) string {
 					dead = append(dead, sid)
 				}
 			}
-			if len(dead) > 0 && !(g.Avoid["refused-join-while-joined"] && c.Sess != nil) {
+			// (not in recorded histories: which free id a new session gets is the
+			// server's choice, so a literal dead id may name a live session in the re-run)
+			if len(dead) > 0 && !g.NoDeadSIDs && !(g.Avoid["refused-join-while-joined"] && c.Sess != nil) {
 				return dead[g.R.Intn(len(dead))]
 			}
 		default:
